@@ -734,10 +734,84 @@ func c12Overflow() *c12Fail {
 	return nil
 }
 
+// c12Wrap: a neighbour whose entry was overwritten / expired / failed earlier (leaving a stale
+// ring slot behind) must survive as long as fewer than 512 newer entries have been created,
+// and a lookup waiting for it must still be completed by the reply.
+func c12Wrap() []c12Fail {
+	var fails []c12Fail
+	other := func(i int) tcpip.Address { return tcpip.Address([]byte{10, 0, byte(2 + i/200), byte(1 + i%200)}) }
+	omac := func(i int) tcpip.LinkAddress { return tcpip.LinkAddress([]byte{2, 0, 0, 2, byte(i >> 8), byte(i)}) }
+	k := ipX
+	for _, prelude := range []string{"overwrite", "expire-relearn", "expire-lookup-pending", "failed-then-late-reply"} {
+		for _, fill := range []int{500, 510, 511} {
+			c := c12NewWorld()
+			c.n.S.SetRouteTable([]tcpip.Route{{Destination: "\x0a\x00\x00\x00", Mask: "\xff\x00\x00\x00", NIC: 1}})
+			var pending <-chan struct{}
+			advance := func(d time.Duration) {
+				target := vtime.Elapsed() + d
+				for {
+					p := vtime.Pending()
+					if len(p) == 0 || vtime.Elapsed()+p[0] > target {
+						break
+					}
+					vtime.FireNext()
+					c.w.Settle()
+				}
+				vtime.Advance(target - vtime.Elapsed())
+				c.take()
+			}
+			s := c.n.S
+			want := macQ
+			switch prelude {
+			case "overwrite":
+				s.AddLinkAddress(1, k, macP)
+				s.AddLinkAddress(1, k, macQ)
+			case "expire-relearn":
+				s.AddLinkAddress(1, k, macP)
+				advance(61 * time.Second)
+				s.AddLinkAddress(1, k, macQ)
+			case "expire-lookup-pending":
+				s.AddLinkAddress(1, k, macP)
+				advance(61 * time.Second)
+				_, ch, err := s.GetLinkAddress(1, k, addrA4, ipv4.ProtocolNumber, &sleep.Waker{})
+				c.w.Settle()
+				c.take()
+				if err != tcpip.ErrWouldBlock {
+					fails = append(fails, c12Fail{"wrap-harness", fmt.Sprintf("prelude %s: lookup of an expired entry returned %v", prelude, err)})
+				}
+				pending = ch
+			case "failed-then-late-reply":
+				s.GetLinkAddress(1, k, addrA4, ipv4.ProtocolNumber, &sleep.Waker{})
+				c.w.Settle()
+				advance(4 * time.Second)
+				s.AddLinkAddress(1, k, macQ)
+			}
+			for i := 0; i < fill; i++ {
+				s.AddLinkAddress(1, other(i), omac(i))
+			}
+			if pending != nil {
+				// the reply arrives now: the waiting lookup must be completed
+				s.AddLinkAddress(1, k, macQ)
+				c.w.Settle()
+				if !chClosed(pending) {
+					fails = append(fails, c12Fail{"wrap-waiter-abandoned", fmt.Sprintf("prelude %s, then %d other neighbours learned, then the reply for the pending neighbour: the waiting lookup was never completed", prelude, fill)})
+				}
+			}
+			m, _, err := s.GetLinkAddress(1, k, addrA4, ipv4.ProtocolNumber, &sleep.Waker{})
+			c.w.Settle()
+			if err != nil || m != want {
+				fails = append(fails, c12Fail{"wrap-live-entry-lost", fmt.Sprintf("prelude %s, then %d other neighbours learned (fewer than the 512 cache slots): lookup of the neighbour returns (%x, %v), its fresh entry %x was lost", prelude, fill, string(m), err, string(want))})
+			}
+			c.close()
+		}
+	}
+	return fails
+}
+
 // ---------- jobs ----------
 
 func c12Jobs(tier string) []string {
-	jobs := []string{"resp:arp", "resp:ndp", "overflow"}
+	jobs := []string{"resp:arp", "resp:ndp", "overflow", "wrap"}
 	for _, s := range []string{"udp", "udp2", "gw", "tcp", "udp6"} {
 		b := 2
 		if tier == "thorough" {
@@ -808,6 +882,13 @@ func c12Run(job, tier string, deadline time.Time) *engine.Result {
 		report(c12Overflow(), map[string]interface{}{"job": job})
 		r.Execs, r.Transitions, r.Nontrivial = 1, 1040, 1
 		r.Sample(map[string]interface{}{"overflow": "learn 520 neighbours, look every one up"})
+	case "wrap":
+		for _, f := range c12Wrap() {
+			f := f
+			report(&f, map[string]interface{}{"job": job})
+		}
+		r.Execs, r.Transitions, r.Nontrivial = 12, 12*512, 12
+		r.Sample(map[string]interface{}{"wrap": "preludes {overwrite, expire-relearn, expire-lookup-pending, failed-then-late-reply} x {500,510,511} other neighbours, then lookup"})
 	case "wait":
 		var b, i, n int
 		fmt.Sscan(parts[2], &b)
@@ -858,6 +939,10 @@ func c12Replay(rp json.RawMessage) *engine.Violation {
 		f = c12NdpCase(*p.Ndp)
 	case p.Job == "overflow":
 		f = c12Overflow()
+	case p.Job == "wrap":
+		if fs := c12Wrap(); len(fs) > 0 {
+			f = &fs[0]
+		}
 	}
 	if f == nil {
 		return nil
